@@ -32,6 +32,7 @@ class Endpoint:
         self.last_arrival = 0.0  # keeps segments in order
         self.sent_log = []       # (vtime, seq, bytes) as passed to sendall
         self.recv_log = []       # (vtime, seq, bytes) as returned by recv
+        self.deliver_log = []    # (vtime, seq, bytes) as they arrived at this side (readable from then on)
         self.rcvbuf = None       # optional limit on rx+inflight (send blocks when reached)
 
     # -- socket API used by frappy
@@ -78,6 +79,7 @@ class Endpoint:
         self.inflight -= len(data)
         if self.closed or self.reset:
             return
+        self.deliver_log.append((self.sim.vnow(), self.sim.next_seq(), data))
         self.rx.append(data)
 
     def _deliver_eof(self):
@@ -143,7 +145,36 @@ class Endpoint:
             if pos < len(data):
                 sim.yield_point()     # two unsynchronised senders do interleave here
 
-    send = sendall
+    def send(self, data, flags=0):
+        """like socket.send: waits until the peer has room, then takes as much as fits (at least one byte, possibly
+        only a prefix) and returns the number of bytes taken"""
+        sim = self.sim
+        data = bytes(data)
+        sim.yield_point()
+        if self.closed:
+            raise OSError(9, 'Bad file descriptor')
+        if self.reset:
+            raise ConnectionResetError(104, 'Connection reset by peer')
+        peer = self.peer
+        if not data or peer.closed or peer.rcvbuf is None:
+            self.sendall(data)
+            return len(data)
+        if not self._space():
+            sim.count('net.sendbuf-full')
+            if not sim.wait_until(self._space, self.timeout, what=f'send {self.name}'):
+                sim.count('net.send-timeout')
+                raise _real_socket.timeout('timed out')
+        room = max(1, peer.rcvbuf - (sum(map(len, peer.rx)) + peer.inflight))
+        n = min(len(data), room)
+        if n < len(data):
+            sim.count('net.partial-send')
+        # the part taken goes out like a sendall of its own (not limited again by the room)
+        saved, peer.rcvbuf = peer.rcvbuf, None
+        try:
+            self.sendall(data[:n])
+        finally:
+            peer.rcvbuf = saved
+        return n
 
     def shutdown(self, how=None):
         self._fin()
